@@ -51,7 +51,7 @@ package cachepolicy
 //@   let cacheable := (len(e.cacheConditions) == 0 && er.Error == nil) || (exists j int :: 0 <= j && j < len(e.cacheConditions) && appb(e.cacheConditions[j], er.Result, er.Error))
 //@   let stored := cacheable && ck != ""
 //@   ensures [C11.post.identity] result == er
-//@   ensures [C11.post.store] stored ==> ncalls(e.cache.Set) == 1 && arg(e.cache.Set, 1, 0) == ck && arg(e.cache.Set, 1, 1) == er.Result
+//@   ensures [C11.post.store+C01.cache.own_verdict] stored ==> ncalls(e.cache.Set) == 1 && arg(e.cache.Set, 1, 0) == ck && arg(e.cache.Set, 1, 1) == er.Result
 //@   ensures [C11.post.store.event+C16.cache.stored] stored ==> (e.onCache != nil ==> ncalls(e.onCache) == 1)
 //@   ensures [C11.post.nostore+C16.cache.notstored] !stored ==> ncalls(e.cache.Set) == 0 && ncalls(e.onCache) == 0
 //@   ensures [C11.post.never_reads] ncalls(e.cache.Get) == 0
